@@ -387,21 +387,34 @@ class CFG(object):
         return self.reach([self.entry.id], avoid_edge=avoid_edge)
 
     def dominated(self, target_ids, guard_nodes=None, guard_edge=None,
-                  avoid_edge=None, start=None):
+                  avoid_edge=None, start=None, complete=False):
         """True iff every path from entry (or start ids) to any target passes
-        a guard node or a guard edge.  avoid_edge prunes infeasible edges."""
+        a guard node or a guard edge.  avoid_edge prunes infeasible edges.
+        With complete=True a guard node counts as passed only when it
+        *completes*: a path that leaves it through an exception edge (into a
+        handler that carries on) has not passed it - the reading wanted when
+        the guard is a check and the target the action it protects.  The
+        default reading (entering the guard suffices) is the one wanted when
+        the guard raising *is* the protection and exits are among the targets."""
         guard_nodes = set(guard_nodes or ())
+        targets = set(target_ids)
 
         def av(s, lab, d):
             if avoid_edge is not None and avoid_edge(s, lab, d):
                 return True
             if guard_edge is not None and guard_edge(s, lab, d):
                 return True
+            if complete and s in guard_nodes and lab not in ("exc", "raise"):
+                return True
             return False
 
         starts = start if start is not None else [self.entry.id]
+        if complete:
+            r = self.reach(starts, avoid_edge=av)
+            # a target that is itself a guard node is trivially guarded
+            return not ((r & targets) - guard_nodes)
         r = self.reach(starts, avoid_nodes=guard_nodes, avoid_edge=av)
-        return not (r & set(target_ids))
+        return not (r & targets)
 
     def witness_path(self, target_ids, guard_nodes=None, guard_edge=None,
                      avoid_edge=None, start=None):
